@@ -8,7 +8,7 @@ package network
 // the requested hash; the reply handed back is that very reply; without such a reply the
 // fetch fails. The ghost trace `qfh` records the decoded blocks whose hash was compared.
 //@ pure func qblk(i int) *hotstuff.Block = asptr(traceat(qfh, 0, i), hotstuff.Block)
-//@ func (qspec).RequestBlockQF property C12,C13
+//@ func (qspec).RequestBlockQF property C12,C13,C06
 //@   requires (in != nil ==> len(in.Hash) <= 268435456) && (forall k uint32 :: {replies[k]} has(replies, k) ==> hotstuffpb.wblock(replies[k]))
 //@   ghost at call Hash :: emit qfh(op0)
 //@   ensures [one-of-the-replies] result1 ==> result0 != nil && (exists k uint32 :: {replies[k]} has(replies, k) && replies[k] == result0)
